@@ -88,6 +88,36 @@ Theorem C17_register_once : forall s addr seed handle i s',
 Proof. exact register_once. Qed.
 Print Assumptions C17_register_once.
 
+(* Composition with the simulator and a lossy, re-polling viewer (environment model at the end of
+   Http/EventQueue.v).  Assumption on the simulator, [sim_ok batches]: its batches have pairwise distinct ids
+   and carry simulator events; and, structurally in [sys_step]: it sends every batch at most once, in order,
+   and a batch is gone once sent, acknowledged or not; it is not asked again after a lost response because the
+   proxy answers the repeated ack from its cache (C17_lost_response_replayed).
+   The viewer polls with the id of the last response it received, may lose ANY response, re-polls with the same
+   ack, and accepts a response id only once.  Then at every moment of every run the accepted stream plus the
+   one body still in flight is: the non-swallowed simulator events of the batches sent, in order, and every
+   injected event not still queued, exactly once, in injection order. *)
+Theorem C17_viewer_stream : forall swallow batches, sim_ok batches -> forall ops,
+  let y := sys_run swallow ops (sys_init batches) in
+  filter is_sim (v_accepted (y_viewer y) ++ in_flight y) = keep swallow (flat_map p_events (y_served y)) /\
+  filter is_inj (v_accepted (y_viewer y) ++ in_flight y) ++ q_queued (y_eq y) = y_injected y /\
+  y_served y ++ y_sim y = batches.
+Proof. exact viewer_stream. Qed.
+Print Assumptions C17_viewer_stream.
+
+(* ... and nothing is in flight once a response gets through: the accepted stream alone is complete *)
+Theorem C17_viewer_caught_up : forall swallow batches, sim_ok batches -> forall ops reply,
+  in_flight (sys_run swallow (ops ++ [YCycle reply false]) (sys_init batches)) = [].
+Proof. exact viewer_caught_up. Qed.
+Print Assumptions C17_viewer_caught_up.
+
+Theorem C17_lost_response_replayed : forall swallow batches, sim_ok batches -> forall ops p,
+  let y := sys_run swallow ops (sys_init batches) in
+  q_last_payload (y_eq y) = Some p -> existsb (N.eqb (p_id p)) (v_seen (y_viewer y)) = false ->
+  poll_request (y_eq y) (v_ack (y_viewer y)) = Some p.
+Proof. exact lost_response_replayed. Qed.
+Print Assumptions C17_lost_response_replayed.
+
 (* ---- non-vacuity ---- *)
 Definition ex_swallow (e : ev) : bool := match e with (FromSim, n) => N.odd n | _ => false end.
 Definition ex_hist : list eq_op :=
@@ -107,3 +137,24 @@ Proof.
   - repeat constructor.
   - repeat constructor; discriminate.
 Qed.
+
+(* the composition theorem is not vacuous: three batches (one completely swallowed), two injections, two lost
+   responses, a timeout; the viewer ends with every kept simulator event and both injected events, once *)
+Definition ex_batches : list payload :=
+  [mkPayload 101 [(FromSim, 1%N); (FromSim, 2%N)]; mkPayload 102 [(FromSim, 3%N)]; mkPayload 103 [(FromSim, 4%N); (FromSim, 6%N)]].
+Definition ex_sys_ops : list sys_op :=
+  [YInject 20; YCycle SBatch true; YCycle SBatch true; YCycle SBatch false; YInject 22;
+   YCycle (SStatus 502) false; YCycle SBatch false; YCycle SBatch true; YCycle SUndef false; YCycle SBatch false].
+
+Example C17_ex_sim_ok : sim_ok ex_batches.
+Proof.
+  constructor.
+  - cbn. repeat constructor; cbn; intuition discriminate.
+  - repeat constructor.
+Qed.
+
+Example C17_ex_viewer :
+  let y := sys_run ex_swallow ex_sys_ops (sys_init ex_batches) in
+  v_accepted (y_viewer y) = [(FromSim, 2%N); (Injected, 20%N); (Injected, 22%N); (FromSim, 4%N); (FromSim, 6%N)]
+  /\ in_flight y = [] /\ y_sim y = [] /\ q_queued (y_eq y) = [] /\ v_seen (y_viewer y) = [103%N; 102%N; 101%N].
+Proof. vm_compute. repeat split. Qed.
